@@ -94,9 +94,19 @@ fn leaf_count(t: &Type) -> usize {
         _ => 0,
     }
 }
-/// (does some element need more than 64 bits or have its sign bit set, i.e. exercises wrap-around)
-fn gen_value(t: &Type, rng: &mut Rng, flags: &mut (bool, bool)) -> Value {
+/// flags: (some element has its sign bit set, some element is >= 2^64, a Bit leaf has non-zero padding bits)
+fn gen_value(t: &Type, rng: &mut Rng, flags: &mut (bool, bool, bool)) -> Value {
     match t {
+        Type::Scalar(st) | Type::Array(_, st) if rng.chance(1, 5) => {
+            // raw bytes of the right length: for Bit leaves the padding bits of the last byte are
+            // arbitrary (check_type accepts them), for the other types plain uniform elements
+            let nbytes = ((get_size_in_bits(t.clone()).unwrap() + 7) / 8) as usize;
+            let b: Vec<u8> = (0..nbytes).map(|_| rng.next() as u8).collect();
+            if *st == BIT && leaf_count(t) % 8 != 0 && (b[nbytes - 1] >> (leaf_count(t) % 8)) != 0 {
+                flags.2 = true;
+            }
+            Value::from_bytes(b)
+        }
         Type::Scalar(st) | Type::Array(_, st) => {
             let n = leaf_count(t);
             let xs: Vec<u128> = (0..n)
@@ -245,7 +255,7 @@ pub fn run(tier: &str, seed: u64, out: &mut Out) {
     let all = tier != "quick";
     for k in 0..rounds {
         let t = pick_type(k, &mut rng);
-        let mut flags = (false, false);
+        let mut flags = (false, false, false);
         let v = gen_value(&t, &mut rng, &mut flags);
         let tv = match TypedValue::new(t.clone(), v.clone()) {
             Ok(x) => x,
@@ -260,7 +270,7 @@ pub fn run(tier: &str, seed: u64, out: &mut Out) {
         let tvc = format!("({}, {})", tc, vc);
         let dc: Vec<String> = d.iter().map(|x| dec(x, &t).unwrap()).collect();
         let input = json!({"type": format!("{}", t), "prng_seed": format!("{:032x}", u128::from_le_bytes(sd)), "value": if vc.len() < 300 { vc.clone() } else { format!("{}...", &vc[..300]) }});
-        let nontrivial = flags.0 || flags.1 || is_nested(&t) || has_ragged_bits(&t);
+        let nontrivial = flags.0 || flags.1 || flags.2 || is_nested(&t) || has_ragged_bits(&t);
         out.stat(&format!("type:{}", type_class(&t)));
         let mut sts = vec![];
         scalars_in(&t, &mut sts);
@@ -269,6 +279,9 @@ pub fn run(tier: &str, seed: u64, out: &mut Out) {
         }
         if has_ragged_bits(&t) {
             out.stat("ragged-bits");
+        }
+        if flags.2 {
+            out.stat("secret-with-nonzero-padding-bits");
         }
         if flags.1 {
             out.stat("has-element>=2^64");
@@ -348,7 +361,7 @@ pub fn run(tier: &str, seed: u64, out: &mut Out) {
         }
         // the secret does not enter slots 0,1 or the garbage: share a different secret, same seed
         {
-            let mut f2 = (false, false);
+            let mut f2 = (false, false, false);
             let v2 = gen_value(&t, &mut rng, &mut f2);
             let tv2 = TypedValue::new(t.clone(), v2).unwrap();
             let l2 = observe(move || { let mut p = PRNG::new(Some(sd))?; tv2.get_local_shares_for_each_party(&mut p) });
@@ -398,7 +411,7 @@ pub fn run(tier: &str, seed: u64, out: &mut Out) {
 
         // ---- generalized_add / generalized_subtract on two arbitrary values of the type ------
         {
-            let (a, b) = (d[2].clone(), gen_value(&t, &mut rng, &mut (false, false)));
+            let (a, b) = (d[2].clone(), gen_value(&t, &mut rng, &mut (false, false, false)));
             let (ac, bc) = (dc[2].clone(), dec(&b, &t).unwrap());
             let r = { let (a, b, t) = (a.clone(), b.clone(), t.clone()); observe(move || generalized_add(a, b, t)) };
             if let Some(rc) = opt_res(&r, |x| dec(x, &t)) {
@@ -421,7 +434,7 @@ pub fn run(tier: &str, seed: u64, out: &mut Out) {
         if (k / 8 + k) % 2 == 0 {
             let t2 = mutate(&t, &mut rng);
             if t2.is_valid() {
-                let b = gen_value(&t2, &mut rng, &mut (false, false));
+                let b = gen_value(&t2, &mut rng, &mut (false, false, false));
                 let bc = dec(&b, &t2).unwrap();
                 let top = if rng.chance(1, 2) { t.clone() } else { t2.clone() };
                 let (x, xc, y, yc) = if rng.chance(1, 2) { (v.clone(), vc.clone(), b, bc) } else { (b, bc, v.clone(), vc.clone()) };
@@ -448,7 +461,7 @@ pub fn run(tier: &str, seed: u64, out: &mut Out) {
                 2 => {
                     let t2 = mutate(&t, &mut rng);
                     if t2.is_valid() {
-                        let b = gen_value(&t2, &mut rng, &mut (false, false));
+                        let b = gen_value(&t2, &mut rng, &mut (false, false, false));
                         TypedValue { t: tuple_type(vec![t.clone(), t2, t.clone()]), value: Value::from_vector(vec![d[2].clone(), b, d[4].clone()]), name: None }
                     } else { tv.clone() }
                 }
